@@ -1,0 +1,33 @@
+//go:build verif
+
+// Contracts for the verification machinery under /verif (contract-based deductive
+// verification). This file is comment-only, is excluded from every normal build by the
+// "verif" build tag, and declares nothing. See /verif/DESIGN.md §4.
+
+package evalopts
+
+// C17: a value is accepted exactly when it is a System value, a FHIR element/resource, or a
+// collection whose items are accepted; every rejection is ErrUnsupportedType. The recursive
+// answer is named envOk so that the collection case can refer to the items' answers.
+//@ func validateType(input) (err)
+//@   defines (err == nil) == envOk(input)
+//@   ensures !istype(input, system.Collection) || implements(input, fhir.Base) || implements(input, system.Any) ==> (err == nil) == (implements(input, fhir.Base) || implements(input, system.Any))
+//@   ensures err != nil ==> is(err, ErrUnsupportedType) && !is(err, ErrExistingConstant)
+//@   assigns nothing
+//@   ensures istype(input, system.Collection) && !implements(input, fhir.Base) && !implements(input, system.Any) ==> (err == nil) == (forall j int :: 0 <= j && j < len(unbox(input, system.Collection)) ==> envOk(unbox(input, system.Collection)[j]))
+//@   loop 1 (i):
+//@     invariant err != nil ==> is(err, ErrUnsupportedType) && !is(err, ErrExistingConstant)
+//@     invariant (err == nil) == (forall j int :: 0 <= j && j < i ==> envOk(unbox(input, system.Collection)[j]))
+
+// C17: the option adds the variable exactly when the value is accepted and the name is new
+// (neither predefined nor supplied before); otherwise it fails with the declared error and
+// leaves the variables as they were.
+//@ func EnvVariable$1(cfg) (err)
+//@   requires cfg != nil && cfg.Context != nil && cfg.Context.ExternalConstants != nil
+//@   let m = cfg.Context.ExternalConstants
+//@   ensures !envOk(value) ==> is(err, ErrUnsupportedType)
+//@   ensures envOk(value) && old(haskey(m, name)) ==> is(err, ErrExistingConstant)
+//@   ensures (err == nil) == (envOk(value) && !old(haskey(m, name)))
+//@   ensures err == nil ==> haskey(m, name) && m[name] == value
+//@   ensures forall s string :: s != name || err != nil ==> haskey(m, s) == old(haskey(m, s)) && m[s] == old(m[s])
+//@   assigns map:cfg.Context.ExternalConstants
